@@ -1,5 +1,5 @@
 import I2N.Lemmas.PolicyFrame
-import I2N.Lemmas.PolicyGenPush
+import I2N.Lemmas.PolicyGenChain
 /-!
 # C12 — State operations follow the documented policy table and a store model
 
@@ -423,6 +423,16 @@ theorem pushOne_matches_source (B : Backends) (sp rp : Params) (st : St)
     outOf ((genPushOne B).run ⟨sp, rp, st⟩) = pushOne B sp st :=
   I2N.PolicyGen.pushOne_eq B sp rp st h
 
+/-- **one iteration of `pop_states` is `popOne`**: the ROOTS guard, the restriction to the object, the keys `get_state` /
+`get_mode` (default `ra`) written before `get_states` is called, then — only when that call returned — `unset_state` /
+`unset_mode` (default `fa`, read from the SAME `pop_mode` key) written into the same dictionary before `unset_states` is
+called; an exception of the first call ends the iteration with the store and the backend calls it left.  Hypothesis:
+the restriction does not overwrite `pop_state` (the code re-reads it twice afterwards, the hand model does not). -/
+theorem popOne_matches_source (B : Backends) (sp rp : Params) (st : St)
+    (h : (restrict sp).getD "pop_state" "" = sp.getD "pop_state" "") :
+    outOf ((genPopOne B).run ⟨sp, rp, st⟩) = popOne B sp st :=
+  I2N.PolicyGen.popOne_eq B sp rp st h
+
 /-- NV: the image of the standard example satisfies `NoClash` (decided on the concrete dictionary), and the generated
 iteration computes on it: `get_mode=ra`, empty store, default `check_mode`: abort after the root was created. -/
 def spImg : Params :=
@@ -433,6 +443,95 @@ example : NoClash .get spImg ∧ NoClash .set spImg ∧ NoClash .unset spImg := 
 example : (restrict spImg).getD "push_state" "" = spImg.getD "push_state" "" := by decide +kernel
 example : errOf ((genGetOne B0).run ⟨spImg, [], {}⟩).1 = some .abort ∧
     ((genGetOne B0).run ⟨spImg, [], {}⟩).2.st.calls.map (·.kind) = [.checkRoot, .setRoot, .show] := by decide +kernel
+
+/-- NV of `popOne_matches_source`: the same image with `pop_state=launch` (defaults `ra` / `fa`), the state and the root
+present: the hypothesis holds, and the generated iteration gets the state and then removes it (nested check, `get`,
+nested check, `unset`) -/
+def spPop : Params := ("pop_state", "launch") :: spImg
+example : (restrict spPop).getD "pop_state" "" = spPop.getD "pop_state" "" := by decide +kernel
+example : errOf ((genPopOne B0).run ⟨spPop, [], s0⟩).1 = none ∧
+    ((genPopOne B0).run ⟨spPop, [], s0⟩).2.st.calls.map (·.kind) =
+      [.checkRoot, .getRoot, .show, .get, .checkRoot, .getRoot, .show, .unset] ∧
+    "launch" ∉ (((genPopOne B0).run ⟨spPop, [], s0⟩).2.st.store.obj (kImg "image1")).names := by decide +kernel
+
+/-! ### the `NoClash` hypothesis cannot be dropped: the hand model differs from the code on the clash inputs
+
+An object type literally called `get_state` (`states_chain = get_state`, one object `a`, the state to get — `root` —
+given through the type-scoped key `get_state_get_state`).  The dictionary the iteration yields has `get_state = root`;
+`_state_check_chain` copies it to `check_state` and then writes `get_state = a` (type = object name).  The CODE (and
+`genGetOne`, its translation) tests `state_params["get_state"] in ROOTS` on the rewritten value: not a root keyword,
+so it calls `get`.  The hand model `doOne` kept the value read first (`root`): it calls `get_root`.  Reproduced on the
+real code by `harness/props/c12_clash_repro.py` (backend calls `check_root, get_root, get(a)` = the generated side). -/
+
+def pClash : Params :=
+  [("states_chain", "get_state"), ("get_state", "a"), ("get_state_get_state", "root"), ("states", "mem"),
+   ("vms", "vm1"), ("get_mode", "ra"), ("check_mode", "rr")]
+
+/-- what `_parametric_object_iteration(pClash)` yields (one object) -/
+def spClash : Params :=
+  [("states_chain", "get_state"), ("get_state", "root"), ("get_state_get_state", "root"), ("states", "mem"),
+   ("vms", "vm1"), ("get_mode", "ra"), ("check_mode", "rr"), ("object_name", "a"), ("object_type", "get_state")]
+
+/-- the root of the object exists -/
+def sClash : St := { store := [(⟨"get_state", "", "vm1", ""⟩, ⟨true, []⟩)] }
+
+/-- **Witness that `NoClash` is needed in `getOne_matches_source`** (a deviation of the hand model, outside the documented
+parameter space; not a defect of /repo): on the clash input the generated iteration — which is what the real code does —
+ends with the backend call `get` of the state `a`, the hand model with `get_root`. -/
+theorem getOne_clash_witness :
+    (iterObjects pClash).toOption = some [spClash] ∧ ¬ NoClash .get spClash ∧
+    ((genGetOne B0).run ⟨spClash, [], sClash⟩).2.st.calls.map (fun c => (c.kind, c.arg)) =
+      [(.checkRoot, ""), (.getRoot, "-"), (.get, "a")] ∧
+    (doOne B0 .get spClash sClash).2.calls.map (fun c => (c.kind, c.arg)) =
+      [(.checkRoot, ""), (.getRoot, "-"), (.getRoot, "-")] ∧
+    outOf ((genGetOne B0).run ⟨spClash, [], sClash⟩) ≠ doOne B0 .get spClash sClash := by
+  refine ⟨by decide +kernel, by decide +kernel, by decide +kernel, by decide +kernel, ?_⟩
+  intro h
+  have h2 := congrArg (fun r => r.2.calls.map (fun c => (c.kind, c.arg))) h
+  revert h2
+  decide +kernel
+
+/-! ### `_state_check_chain` itself (the atom `chainM` of the generated get/set/unset iterations) -/
+
+/-- the definition regenerated from `_state_check_chain` for one value of its parameter `do` (the front end substitutes
+the constant for `do` and folds the f-strings `f"{do}_state"`, `f"{do}_location"`; the test `do == "set"` is translated) -/
+def genChain (d : Do) (B : Backends) (ty name : String) : M Bool :=
+  match d with
+  | .get => genChainGet B ty name
+  | .set => genChainSet B ty name
+  | .unset => genChainUnset B ty name
+
+/-- **`_state_check_chain(do, env, type, name, state_params)` is the atom `chainM`** the generated iterations of
+`get_states` / `set_states` / `unset_states` call, for every `do`, type, name, dictionary, store and backends table: same
+answer, same dictionary afterwards (`check_state`, `show_location` only for a non-empty `<do>_location`, `check_opts` /
+`soft_boot` = yes exactly for `set`, every component `type = name`, `states_chain` = the last type, in this order), same
+store and backend calls of the nested `check_states`.  Equality of the whole state (no `outOf`): the callers go on
+reading the rewritten dictionary. -/
+theorem stateCheckChain_matches_source (B : Backends) (d : Do) (ty name : String) (s : PS) :
+    (genChain d B ty name).run s = chainM B d ty name s := by
+  cases d
+  · exact I2N.PolicyGen.chainGet_eq B ty name s
+  · exact I2N.PolicyGen.chainSet_eq B ty name s
+  · exact I2N.PolicyGen.chainUnset_eq B ty name s
+
+/-- … and, called with the type and name of the dictionary itself (what `get_states`, `set_states`, `unset_states` pass),
+it is the hand model's `chainParams` followed by the hand model's `checkStates` -/
+theorem stateCheckChain_is_chainParams (B : Backends) (d : Do) (sp rp : Params) (st : St) :
+    (genChain d B (sp.getD "object_type" "") (sp.getD "object_name" "")).run ⟨sp, rp, st⟩ =
+      ((checkStates B (chainParams d sp) st).1,
+        ⟨chainParams d sp, rp, (checkStates B (chainParams d sp) st).2⟩) := by
+  rw [stateCheckChain_matches_source]
+  simp only [chainM, I2N.PolicyGen.chainParamsWith_self]
+
+/-- NV: on the image of the standard example the regenerated chain answers "state missing" after creating the root
+(default `check_mode=rf`) and leaves `check_state=launch`, `states_chain=images`, `soft_boot=no` in the dictionary -/
+example : ((genChain .get B0 "nets/vms/images" "net1/vm1/image1").run ⟨spImg, [], {}⟩).1.toOption = some false ∧
+    ((genChain .get B0 "nets/vms/images" "net1/vm1/image1").run ⟨spImg, [], {}⟩).2.st.calls.map (·.kind) =
+      [.checkRoot, .setRoot, .show] ∧
+    (((genChain .get B0 "nets/vms/images" "net1/vm1/image1").run ⟨spImg, [], {}⟩).2.sp.get? "check_state",
+     ((genChain .get B0 "nets/vms/images" "net1/vm1/image1").run ⟨spImg, [], {}⟩).2.sp.get? "states_chain",
+     ((genChain .get B0 "nets/vms/images" "net1/vm1/image1").run ⟨spImg, [], {}⟩).2.sp.get? "soft_boot") =
+      (some "launch", some "images", some "no") := by decide +kernel
 
 end Regenerated
 
